@@ -72,3 +72,9 @@ claim("C07",
   "Decides structural necessary conditions of C07 for every history and request shape: free is recomputed after every write of total/used before the critical section ends; add and remove arms of used / allocation set / VF allocations are duals on the same amount and guarded against duplicate events; ledger stores never alias per-pod records; a device is handed out only if non-zero and request <= free (both allocators), and failure is reported exactly when too few were found; ledger writes happen under the node-device write lock or on a fresh copy. It does not decide the sums or the combinatorial 'fails only if no feasible set exists'.",
   "trusts go/ssa and the rule tables in internal/rules/c07.go; read-side locking of allocators that reach the node device through a struct field is not claimed",
   "DESIGN.md §4 C07")
+
+claim("C08",
+  "custom SSA rules: full mirror comparison of addPod/deletePod (canonical guarded effects and branch conditions under a duality table), reset table for the rebuild, exemption-exit rule for Filter, exceed=>reject exploration of the threshold check, purity (effect) rule on the per-node profile generator",
+  "Decides structural necessary conditions of C08 for every event history: the incremental sums are updated by an operation and its exact inverse under identical conditions; every accumulator is re-initialised before a metric report rebuilds the sums; Filter succeeds only through the threshold check or an enumerated exemption and rejects expired metrics as configured; an exceeded threshold always rejects; per-node thresholds never leak into the shared profile. It does not decide the inequality, its rounding, or equality with a fresh cache; locking is not claimed (conditional locking).",
+  "trusts go/ssa and the canonical path rendering; a behaviour-preserving rewrite of only one of addPod/deletePod is reported as a mirror difference (by design: both sides must stay literal mirrors)",
+  "DESIGN.md §4 C08")
